@@ -6,7 +6,7 @@ import vlib
 
 META = {
     "category": "model_checking",
-    "text": "Wire.tla transcribes the wire format (header, questions, records with the RDLENGTH-must-fit rule, RFC 1035 4.1.4 name compression, skip vs parse, the RDATA layouts that embed names, OPT TLVs) and the read-side results derived from it; MsgReader.tla is the section-cursor machine of the read API. TLC checks termination of name parsing (measure), validity of every returned name, skip/parse position agreement, the CNAME bound and fuse/position/idempotence invariants over all call orders. Every enumerated message (header shapes x boundary chunks, ~55k quick) and every call order up to 4-5 calls on 7 hostile/well-formed messages is replayed into Message/QuestionSection/RecordSection (full read battery, twice, plus XfrResponseInterpreter and Label::iter_slice under a watchdog); recorded batteries on library-built, mutated and random messages are validated by TLC.",
+    "text": "(Limit-shape names at the 253..257-octet boundary in every section and records of 23 types with hostile inner structure are part of the enumerated messages and of the recorder.) Wire.tla transcribes the wire format (header, questions, records with the RDLENGTH-must-fit rule, RFC 1035 4.1.4 name compression, skip vs parse, the RDATA layouts that embed names, OPT TLVs) and the read-side results derived from it; MsgReader.tla is the section-cursor machine of the read API. TLC checks termination of name parsing (measure), validity of every returned name, skip/parse position agreement, the CNAME bound and fuse/position/idempotence invariants over all call orders. Every enumerated message (header shapes x boundary chunks, ~55k quick) and every call order up to 4-5 calls on 7 hostile/well-formed messages is replayed into Message/QuestionSection/RecordSection (full read battery, twice, plus XfrResponseInterpreter and Label::iter_slice under a watchdog); recorded batteries on library-built, mutated and random messages are validated by TLC.",
     "note": "Trusted: TLC, the transcription in Wire.tla, the harness executor. RDATA of types other than NS/CNAME/PTR/MX/SOA/OPT/A/AAAA/private-use is opaque to the spec: for those only 'value or error, no panic, same twice' is checked on the implementation side. Error classes are not compared. Messages above the cap (160 octets in traces) only get the totality clause. Reads outside the buffer that do not panic and unsafe blocks are not judged. Four open known findings: canonical_name u16 overflow at ANCOUNT=0xFFFF, Label::iter_slice self-pointer hang and pointer-loop unbounded iteration, XFR interpreter unreachable!().",
     "technique": "TLA+ specs (Wire.tla, MsgReader.tla) + TLC exhaustive over enumerated messages and call orders; spec->impl case replay; impl->spec trace validation",
     "design_ref": "DESIGN.md §4 C01",
@@ -47,6 +47,15 @@ def _vacuity_proj(path):
                     seen.add("items:" + s)
                 for it in e[s]["items"]:
                     seen.add("rd:%s:%s" % (it[6]["k"], it[6]["ok"]))
+            for it in e["q"]["items"]:
+                if sum(len(l) + 1 for l in it[0]) + 1 == 255:
+                    seen.add("qname255")
+            for sec in ("an", "ns", "ar"):
+                for it in e[sec]["items"]:
+                    if sum(len(l) + 1 for l in it[0]) + 1 == 255:
+                        seen.add("owner255:" + sec)
+                    if it[1] in (47, 50, 64, 16, 45, 250):
+                        seen.add("typed:%d" % it[1])
             if e["q"]["err"]:
                 seen.add("qerr")
             if e["iter"][1] == 2:
@@ -57,7 +66,8 @@ def _vacuity_proj(path):
     need = {"short", "cname:name", "cname:none", "opt:opt", "opt:none", "secerr", "qerr",
             "items:an", "items:ns", "items:ar", "rd:names:True", "rd:names:False",
             "rd:opt:True", "rd:opt:False", "rd:fixed:True", "rd:fixed:False", "rd:raw:True",
-            "rd:opaque:True", "itererr", "dev:D_cname_ancount_overflow",
+            "rd:opaque:True", "itererr", "qname255", "owner255:an", "owner255:ns", "owner255:ar",
+            "typed:47", "typed:50", "typed:64", "typed:16", "typed:45", "typed:250", "dev:D_cname_ancount_overflow",
             "dev:D_xfr_unreachable_qtype", "dev:D_slice_iter"}
     missing = sorted(need - seen)
     if missing:
